@@ -607,11 +607,42 @@ def _len_model(an, f, st, t, c, argiv):
         return rr, None, []
     if last in ("map", "inspect", "filter", "filter_map", "take_while", "map_while") and args and "iter" in name:
         # the adaptor yields at most as many items as its source (map / inspect: exactly as many); the item values change
+        # (for a closure the analyser adds the closure's result as the new item, see Analyzer.call)
         key = an.op_key(st, args[0])
         rem = st.v.get((key[0], key[1] + ("#rem",))) if key is not None else None
+        out = {}
         if rem is not None:
-            return {("#rem",): rem if last in ("map", "inspect") else (0, rem[1])}, None, []
-        return {}, None, []
+            out[("#rem",)] = rem if last in ("map", "inspect") else (0, rem[1])
+        it = st.v.get((key[0], key[1] + ("#item",))) if key is not None else None
+        if it is not None and (last in ("inspect", "filter", "take_while") or
+                               (last == "map" and len(args) > 1 and args[1].get("k") == "const" and "convert::From<" in str(args[1].get("ty", {}).get("s", "")))):
+            out[("#item",)] = it   # value-preserving: a filter, or map(<T as From<U>>::from) between integer types
+        return out, None, []
+    if name == "core::iter::sources::once::once" and args:
+        out = {("#rem",): (1, 1)}
+        if argiv and argiv[0] is not None:
+            out[("#item",)] = argiv[0]
+        return out, None, []
+    if last == "chain" and "iter" in name and len(args) == 2:
+        ka, kb = an.op_key(st, args[0]), an.op_key(st, args[1])
+        ra = st.v.get((ka[0], ka[1] + ("#rem",))) if ka is not None else None
+        rb = st.v.get((kb[0], kb[1] + ("#rem",))) if kb is not None else None
+        ia_, ib_ = (st.v.get((ka[0], ka[1] + ("#item",))) if ka is not None else None), (st.v.get((kb[0], kb[1] + ("#item",))) if kb is not None else None)
+        out = {}
+        if ra is not None and rb is not None:
+            out[("#rem",)] = (ra[0] + rb[0], ra[1] + rb[1])
+        if ia_ is not None and ib_ is not None:
+            out[("#item",)] = join(ia_, ib_)
+        return out, None, []
+    if last in ("sum",) and "Iterator" in name and args:
+        key = an.op_key(st, args[0])
+        rem = st.v.get((key[0], key[1] + ("#rem",))) if key is not None else None
+        it = st.v.get((key[0], key[1] + ("#item",))) if key is not None else None
+        rng = ty_range({"s": dty})
+        if rem is not None and it is not None and rng is not None and it[0] >= 0:
+            tot = (rem[0] * it[0], rem[1] * it[1])
+            return {(): (tot[0], min(tot[1], rng[1]))}, (tot[1] <= rng[1], "iter-arith", "sum of at most %d items each <= %d" % (rem[1], it[1])), []
+        return {}, (False, "iter-arith", "sum: item count %s or item range %s unknown" % (rem, it)), []
     if last in ("skip", "rev", "into_iter", "by_ref", "take", "iter", "iter_mut", "peekable", "copied", "cloned") and args:
         r = {}
         key = an.op_key(st, args[0])
